@@ -1,22 +1,22 @@
-\* repaired model, empty database, 14 operations over 5 block numbers x 3 versions x {ok,fail,crash}; exhaustive: 582 451 distinct states (4 801 755 generated), 78 s on 8 workers
+\* self-check of the lazy-initialisation dimension: a failed initialisation is LATCHED (FixInitRetry = FALSE); TLC must find a violation (graceful stop, start, store whose initialisation delete fails: every later Store fails)
 CONSTANTS
-  MaxH = 4
-  MaxVer = 3
-  MaxOps = 14
-  InitH <- EmptyDB
+  MaxH = 3
+  MaxVer = 2
+  MaxOps = 5
+  InitH = 2
   Boundary = 99
   Genesis = TRUE
   Lag = 10
   PruneBatch = 1
   EnableFaults = TRUE
-  EnablePrune = TRUE
+  EnablePrune = FALSE
   FixMemAfterCommit = TRUE
   FixSnapshot = TRUE
   FixReorgWindow = TRUE
   FixPruneAtomicFloor = TRUE
   FixCacheOnReorg = TRUE
   FixInitConsume = TRUE
-  FixInitRetry = TRUE
+  FixInitRetry = FALSE
 INIT Init
 NEXT Next
 VIEW view
